@@ -63,4 +63,4 @@ Example C16_program_example :
   /\ duplicate_decls [] (events p) = [("x", R 0 20 0 22)]
   /\ unused_decls [] (events p) = [("x", R 0 10 0 12); ("y", R 0 30 0 32)]
   /\ match check_default p [] with Ok s => unused_diags (cs_diags s) = [("x", R 0 10 0 12); ("y", R 0 30 0 32)] | _ => False end.
-Proof. repeat split; reflexivity. Qed.
+Proof. vm_compute. repeat split; reflexivity. Qed.
